@@ -118,7 +118,12 @@ class TBRMatchedMarkets:
       geos_with_max_impact = list(
           self.geo_req_impact.sort_values(ascending=False).index)
       geos_in_order = list(geo for geo in geos_with_max_impact if geo in geos)
-      geos = set(geos_in_order[:n_geos_max])
+      # Geos that cannot be excluded are always kept.
+      geos_must_include = self.geos_must_include
+      geos_optional = [geo for geo in geos_in_order
+                       if geo not in geos_must_include]
+      n_optional = max(0, n_geos_max - len(geos_must_include & geos))
+      geos = (geos_must_include & geos) | set(geos_optional[:n_optional])
     return geos
 
   @property
